@@ -597,11 +597,15 @@ class RecordContextMatcher:
                         value = False
                     else:
                         raise
-                value = bool(value)
                 values.append(value)
-            result = values.pop(0)
+            # like Python, the result is the operand that decides the outcome (so that a boolean
+            # operation can itself be an operand), not merely its truth value
+            decisive = isinstance(node.op, ast.Or)
+            result = values[-1]
             for value in values:
-                result = AST_OPERATORS[type(node.op)](result, value)
+                if bool(value) == decisive:
+                    result = value
+                    break
             return result
         elif isinstance(node, ast.BinOp):
             left = self.eval(node.left)
